@@ -105,18 +105,20 @@ theorem c03_regression_lastack_progress :
       .deliver .B 9, .deliver .B 10])) = none := by
   decide
 
-/-! ## F-C03-4: SYN-SENT is deleted by a RST that carries no ACK -/
+/-! ## F-C03-4 (fixed): SYN-SENT was deleted by a RST that carries no ACK -/
 
-/-- **F-C03-4.**  RFC 9293 3.10.7.3, second: "If the ACK was acceptable, then signal … connection
-    reset …, enter CLOSED state, delete TCB, and return.  Otherwise (no ACK), drop the segment and
-    return."  The code deletes the TCB for every RST that reaches the RST check (it even calls
-    the result `BlindReset`): an old duplicate RST, or a blind one with ANY sequence number, kills
-    a connection attempt.  In the edge table this is the labelled edge SYN-SENT → CLOSED, which
-    requires RST *and* ACK. -/
-theorem c03_synsent_rst_without_ack_counterexample :
-    stateOf .A (Sys.run {} [.open .A 1000 1500]) = some .SynSent ∧
-    stateOf .A (Sys.run {} [.open .A 1000 1500, .inject .A (forge .A 4 77777 0 0 [])]) = none ∧
-    rfcCause (.segment false true false false) (some .SynSent) none = false := by
+/-- F-C03-4 (fixed).  RFC 9293 3.10.7.3, second: "If the ACK was acceptable, then signal …
+    connection reset …, enter CLOSED state, delete TCB, and return.  Otherwise (no ACK), drop the
+    segment and return."  The code deleted the TCB for every RST that reached the RST check — an
+    old duplicate RST, or a blind one with ANY sequence number, killed a connection attempt
+    (`c03_synsent_rst_without_ack_counterexample` in commit d266f20).  Now the segment is dropped
+    and the TCB is what it was; a RST with an acceptable ACK still resets the attempt. -/
+theorem c03_regression_synsent_rst_without_ack :
+    tcbOf .A (Sys.run {} [.open .A 1000 1500, .inject .A (forge .A 4 77777 0 0 [])])
+      = tcbOf .A (Sys.run {} [.open .A 1000 1500]) ∧
+    stateOf .A (Sys.run {} [.open .A 1000 1500, .inject .A (forge .A 20 0 1001 0 [])]) = none ∧
+    rfcCause (.segment false true false false) (some .SynSent) none = false ∧
+    rfcCause (.segment true true false false) (some .SynSent) none = true := by
   decide
 
 end C03
